@@ -52,3 +52,147 @@ pub proof fn lemma_wf_tail(v: Seq<Range>)
 pub open spec fn room_at(idx: usize, cur: usize, ex: Seq<usize>, avg: int, rem: int) -> bool {
     idx < ex.len() ==> cur + ex[idx as int] <= dfin(idx as int, avg, rem) && (cur > 0 ==> cur + ex[idx as int] < dfin(idx as int, avg, rem))
 }
+
+// ---- scale-in: what the migrations out of a trailing half carry (C01) ----
+// lowest slot of a well-formed list (above every slot when the list is empty)
+pub open spec fn bottom(v: Seq<Range>) -> int { if v.len() == 0 { usize::MAX as int } else { v[0].0 as int } }
+// two migrations out of the same half never carry the same slot
+pub open spec fn pieces_disjoint(ms: Seq<MigrationSlots>, i: int, p: int) -> bool {
+    forall|j: int, k: int, s: int| 0 <= j < k < ms.len() && from_half(ms[j], i, p) && from_half(ms[k], i, p) ==> !(#[trigger] covers(ms[j].ranges.0@, s) && #[trigger] covers(ms[k].ranges.0@, s))
+}
+// everything the migrations out of half (i, p) carry was owned by that half, and no slot is handed out twice
+#[verifier::opaque]
+pub open spec fn taken_once(o: Seq<Range>, ms: Seq<MigrationSlots>, i: int, p: int) -> bool {
+    &&& forall|s: int| #![trigger pieces_cover(ms, i, p, s)] pieces_cover(ms, i, p, s) ==> covers(o, s)
+    &&& pieces_disjoint(ms, i, p)
+}
+// the cutting loop (pieces are cut from the FRONT of the list): old list == what is left + what was given (to finished migrations or to the
+// pending piece list); finished migrations lie below lo, pending pieces in [lo, bottom of what is left)
+#[verifier::opaque]
+pub open spec fn split_down_ok(l0: Seq<Range>, cur: Seq<Range>, ms: Seq<MigrationSlots>, cds: Seq<Range>, i: int, p: int, lo_cds: int) -> bool {
+    &&& forall|s: int| #![trigger covers(l0, s)] #![trigger covers(cur, s)] #![trigger given(ms, cds, i, p, s)] covers(l0, s) <==> (covers(cur, s) || given(ms, cds, i, p, s))
+    &&& forall|s: int| #![trigger pieces_cover(ms, i, p, s)] pieces_cover(ms, i, p, s) ==> s < lo_cds
+    &&& forall|s: int| #![trigger covers(cds, s)] covers(cds, s) ==> lo_cds <= s < bottom(cur)
+    &&& lo_cds <= bottom(cur)
+    &&& pieces_disjoint(ms, i, p)
+}
+pub proof fn lemma_wf_bottom(v: Seq<Range>, s: int)
+    requires wf(v), bounded(v), covers(v, s)
+    ensures s >= bottom(v), s < usize::MAX
+{
+    let k = choose|k: int| 0 <= k < v.len() && lo(#[trigger] v[k]) <= s <= hi(v[k]);
+    lemma_wf_sorted(v, 0, k);
+}
+pub proof fn lemma_covers_first(v: Seq<Range>, s: int)
+    requires v.len() > 0
+    ensures covers(v, s) <==> (in_range(v[0], s) || covers(v.subrange(1, v.len() as int), s))
+{
+    let t = v.subrange(1, v.len() as int);
+    if covers(v, s) { let k = choose|k: int| 0 <= k < v.len() && lo(#[trigger] v[k]) <= s <= hi(v[k]); if k > 0 { assert(t[k - 1] == v[k]); } }
+    if covers(t, s) { let k = choose|k: int| 0 <= k < t.len() && lo(#[trigger] t[k]) <= s <= hi(t[k]); assert(v[k + 1] == t[k]); }
+}
+pub proof fn lemma_split_down_init(l0: Seq<Range>, ms: Seq<MigrationSlots>, i: int, p: int)
+    requires forall|s: int| !(#[trigger] pieces_cover(ms, i, p, s)), forall|j: int| 0 <= j < ms.len() ==> !from_half(#[trigger] ms[j], i, p)
+    ensures split_down_ok(l0, l0, ms, Seq::<Range>::empty(), i, p, bottom(l0))
+{
+    reveal(split_down_ok);
+    let c0 = Seq::<Range>::empty();
+    assert forall|s: int| #![trigger covers(l0, s)] #![trigger given(ms, c0, i, p, s)] !given(ms, c0, i, p, s) by { assert(!pieces_cover(ms, i, p, s)); }
+}
+// the whole first range goes to the pending pieces
+pub proof fn lemma_split_down_pop(l0: Seq<Range>, v0: Seq<Range>, ms: Seq<MigrationSlots>, cds: Seq<Range>, i: int, p: int, lo_cds: int)
+    requires split_down_ok(l0, v0, ms, cds, i, p, lo_cds), wf(v0), bounded(v0), v0.len() > 0
+    ensures split_down_ok(l0, v0.subrange(1, v0.len() as int), ms, cds.push(v0[0]), i, p, lo_cds)
+{
+    reveal(split_down_ok);
+    let d = v0.subrange(1, v0.len() as int); let r = v0[0]; let c2 = cds.push(r);
+    assert(bottom(d) > r.1) by { if d.len() > 0 { assert(d[0] == v0[1]); assert(v0[0].1 + 1 < v0[1].0); } }
+    assert forall|s: int| #![trigger covers(l0, s)] #![trigger covers(d, s)] #![trigger given(ms, c2, i, p, s)] #![trigger covers(c2, s)]
+        (covers(l0, s) <==> (covers(d, s) || given(ms, c2, i, p, s))) && (covers(c2, s) ==> lo_cds <= s < bottom(d)) by {
+        lemma_covers_first(v0, s); lemma_covers_push(cds, r, s);
+        if given(ms, cds, i, p, s) { }
+        if covers(cds, s) { }
+    }
+}
+// the first rn slots of the first range go to the pending pieces
+pub proof fn lemma_split_down_cut(l0: Seq<Range>, v0: Seq<Range>, ms: Seq<MigrationSlots>, cds: Seq<Range>, i: int, p: int, lo_cds: int, rn: int)
+    requires split_down_ok(l0, v0, ms, cds, i, p, lo_cds), wf(v0), bounded(v0), v0.len() > 0, 1 <= rn < rlen(v0[0])
+    ensures split_down_ok(l0, v0.update(0, Range((v0[0].0 + rn) as usize, v0[0].1)), ms, cds.push(Range(v0[0].0, (v0[0].0 + rn - 1) as usize)), i, p, lo_cds)
+{
+    reveal(split_down_ok);
+    let a = v0[0].0; let b = v0[0].1;
+    let nr = Range((a + rn) as usize, b); let piece = Range(a, (a + rn - 1) as usize);
+    let w = v0.update(0, nr); let c2 = cds.push(piece);
+    assert(w.subrange(1, w.len() as int) =~= v0.subrange(1, v0.len() as int));
+    assert forall|s: int| #![trigger covers(l0, s)] #![trigger covers(w, s)] #![trigger given(ms, c2, i, p, s)] #![trigger covers(c2, s)]
+        (covers(l0, s) <==> (covers(w, s) || given(ms, c2, i, p, s))) && (covers(c2, s) ==> lo_cds <= s < bottom(w)) by {
+        lemma_covers_first(v0, s); lemma_covers_first(w, s); lemma_covers_push(cds, piece, s);
+        if given(ms, cds, i, p, s) { }
+        if covers(cds, s) { }
+    }
+}
+// the pending pieces become a migration out of this half
+pub proof fn lemma_split_down_emit(l0: Seq<Range>, cur: Seq<Range>, ms: Seq<MigrationSlots>, cds: Seq<Range>, e: MigrationSlots, i: int, p: int, lo_cds: int)
+    requires split_down_ok(l0, cur, ms, cds, i, p, lo_cds), from_half(e, i, p), forall|s: int| covers(e.ranges.0@, s) <==> covers(cds, s)
+    ensures split_down_ok(l0, cur, ms.push(e), Seq::<Range>::empty(), i, p, bottom(cur))
+{
+    reveal(split_down_ok);
+    let m2 = ms.push(e); let c2 = Seq::<Range>::empty();
+    assert forall|s: int| #![trigger covers(l0, s)] #![trigger covers(cur, s)] #![trigger given(m2, c2, i, p, s)] #![trigger pieces_cover(m2, i, p, s)]
+        (covers(l0, s) <==> (covers(cur, s) || given(m2, c2, i, p, s))) && (pieces_cover(m2, i, p, s) ==> s < bottom(cur)) by {
+        lemma_pieces_push(ms, e, i, p, s);
+        if given(ms, cds, i, p, s) { }
+        if pieces_cover(ms, i, p, s) { }
+        if covers(cds, s) { }
+        assert(!covers(c2, s));
+    }
+    assert(pieces_disjoint(m2, i, p)) by {
+        assert forall|j: int, k: int, s: int| 0 <= j < k < m2.len() && from_half(m2[j], i, p) && from_half(m2[k], i, p) implies !(#[trigger] covers(m2[j].ranges.0@, s) && #[trigger] covers(m2[k].ranges.0@, s)) by {
+            if k < ms.len() { assert(m2[j] == ms[j] && m2[k] == ms[k]); }
+            else {
+                assert(m2[k] == e); assert(m2[j] == ms[j]);
+                if covers(ms[j].ranges.0@, s) && covers(e.ranges.0@, s) { assert(pieces_cover(ms, i, p, s)); assert(covers(cds, s)); }
+            }
+        }
+    }
+}
+pub proof fn lemma_split_down_done(l0: Seq<Range>, cur: Seq<Range>, ms: Seq<MigrationSlots>, i: int, p: int, lo_cds: int)
+    requires split_down_ok(l0, cur, ms, Seq::<Range>::empty(), i, p, lo_cds)
+    ensures taken_once(l0, ms, i, p)
+{
+    reveal(split_down_ok); reveal(taken_once);
+    let c0 = Seq::<Range>::empty();
+    assert forall|s: int| #![trigger pieces_cover(ms, i, p, s)] pieces_cover(ms, i, p, s) implies covers(l0, s) by { assert(given(ms, c0, i, p, s)); }
+}
+pub proof fn lemma_taken_once_push_other(o: Seq<Range>, ms: Seq<MigrationSlots>, e: MigrationSlots, i: int, p: int)
+    requires taken_once(o, ms, i, p), !from_half(e, i, p)
+    ensures taken_once(o, ms.push(e), i, p)
+{
+    reveal(taken_once);
+    let m2 = ms.push(e);
+    assert forall|s: int| #![trigger pieces_cover(m2, i, p, s)] pieces_cover(m2, i, p, s) implies covers(o, s) by { lemma_pieces_push(ms, e, i, p, s); if pieces_cover(ms, i, p, s) { } }
+    assert forall|j: int, k: int, s: int| 0 <= j < k < m2.len() && from_half(m2[j], i, p) && from_half(m2[k], i, p) implies !(#[trigger] covers(m2[j].ranges.0@, s) && #[trigger] covers(m2[k].ranges.0@, s)) by {
+        assert(m2[k] != e || k < ms.len()); if k < ms.len() { assert(m2[j] == ms[j] && m2[k] == ms[k]); } else { assert(m2[k] == e); }
+    }
+}
+// everything the emit step of the scale-in cutter has to re-establish, in one place (keeps the loop-body query small)
+pub proof fn lemma_emit_down(l0: Seq<Range>, cur: Seq<Range>, ms0: Seq<MigrationSlots>, cds: Seq<Range>, e: MigrationSlots, ci: int, pi: int, lo_cds: int,
+                             cs0: Seq<ChunkStore>, ss0: [Option<SlotRange>; 2], n: int)
+    requires split_down_ok(l0, cur, ms0, cds, ci, pi, lo_cds), from_half(e, ci, pi), forall|s: int| covers(e.ranges.0@, s) <==> covers(cds, s),
+        metas_upto(ms0, ci, pi), n <= ci, 0 <= pi < 2,
+        forall|p: int| 0 <= p < pi ==> taken_once((#[trigger] ss0[p])->Some_0.range_list.0@, ms0, ci, p),
+        forall|i: int, p: int| n <= i < ci && 0 <= p < 2 ==> taken_once((#[trigger] cs0[i].stable_slots[p])->Some_0.range_list.0@, ms0, i, p),
+    ensures split_down_ok(l0, cur, ms0.push(e), Seq::<Range>::empty(), ci, pi, bottom(cur)), metas_upto(ms0.push(e), ci, pi),
+        forall|p: int| 0 <= p < pi ==> taken_once((#[trigger] ss0[p])->Some_0.range_list.0@, ms0.push(e), ci, p),
+        forall|i: int, p: int| n <= i < ci && 0 <= p < 2 ==> taken_once((#[trigger] cs0[i].stable_slots[p])->Some_0.range_list.0@, ms0.push(e), i, p),
+{
+    let ms1 = ms0.push(e);
+    lemma_split_down_emit(l0, cur, ms0, cds, e, ci, pi, lo_cds);
+    assert forall|p: int| 0 <= p < pi implies taken_once((#[trigger] ss0[p])->Some_0.range_list.0@, ms1, ci, p) by {
+        lemma_taken_once_push_other(ss0[p]->Some_0.range_list.0@, ms0, e, ci, p);
+    }
+    assert forall|i: int, p: int| n <= i < ci && 0 <= p < 2 implies taken_once((#[trigger] cs0[i].stable_slots[p])->Some_0.range_list.0@, ms1, i, p) by {
+        lemma_taken_once_push_other(cs0[i].stable_slots[p]->Some_0.range_list.0@, ms0, e, i, p);
+    }
+    assert forall|j: int| 0 <= j < ms1.len() implies half_le((#[trigger] ms1[j]).meta.src_chunk_index as int, ms1[j].meta.src_chunk_part as int, ci, pi) by { if j < ms0.len() { assert(ms1[j] == ms0[j]); } }
+}
